@@ -220,6 +220,21 @@ def parse(e: ast.AST) -> BF:
     if isinstance(e, ast.Call) and isinstance(e.func, ast.Name) and e.func.id in ("all", "any") and len(e.args) == 1 and \
             isinstance(e.args[0], (ast.GeneratorExp, ast.ListComp)) and not e.keywords:
         g = e.args[0]
+        # quantification over a short literal tuple / list is a plain conjunction / disjunction
+        if len(g.generators) == 1 and not g.generators[0].ifs and isinstance(g.generators[0].iter, (ast.Tuple, ast.List)) and \
+                len(g.generators[0].iter.elts) <= 6 and isinstance(g.generators[0].target, ast.Name):
+            nm = g.generators[0].target.id
+
+            class _S(ast.NodeTransformer):
+                def __init__(self, v):
+                    self.v = v
+
+                def visit_Name(self, node):
+                    import copy as _c
+                    return _c.deepcopy(self.v) if node.id == nm and isinstance(node.ctx, ast.Load) else node
+            import copy as _copy
+            parts = [parse(_S(el).visit(_copy.deepcopy(g.elt))) for el in g.generators[0].iter.elts]
+            return mk_and(parts) if e.func.id == "all" else mk_or(parts)
         inner = parse(g.elt)
         dom = "; ".join(f"{norm(c.target)} in {_expr_text(c.iter)}" + ("".join(f" if {key(parse(i))}" for i in c.ifs)) for c in g.generators)
         if e.func.id == "all":
